@@ -1,3 +1,4 @@
+import Rp2.Props.Tables.Formulas
 import Rp2.Proofs.PipelineEngine
 import Rp2.Props.Tables.Types
 import Rp2.Proofs.PropsA
@@ -49,4 +50,21 @@ theorem pipeline_each_event_once_in_full (sched : List (Int × Method)) (ins : L
 /-- income is reported at its fiat value with zero cost basis: proceeds pro-rate `fiatWithFee` of the acquisition, cost is 0 -/
 theorem income_value_and_zero_cost (t : InTx) (amt : Int) :
     (⟨t.toEv, none, amt⟩ : Fraction).cost = 0 ∧ (t.toEv).fiatTaxable = t.fiatWithFee := ⟨rfl, rfl⟩
+
+open Rp2.Gen.F in
+/-- translator tie: `is_taxable()` of the three transaction classes, bodies translated from the source on every run, are exactly the
+    filters of the model's `taxableEvents`; `is_earning()` is the model's income flag -/
+theorem source_taxability_is_the_models (ins : List InTx) (outs : List OutTx) (intras : List IntraTx) :
+    taxableEvents ins outs intras =
+      sortByTs (·.ts.us)
+        ((ins.filter (fun t => InTransaction_is_taxable t == some true)).map InTx.toEv ++
+         (outs.filter (fun t => OutTransaction_is_taxable t == some true)).map OutTx.toEv ++
+         (intras.filter (fun t => IntraTransaction_is_taxable t == some true)).map IntraTx.toEv) :=
+  Tables.taxable_filters ins outs intras
+open Rp2.Gen.F in
+theorem source_earning_flag_is_the_models (i : InTx) (hi : i.typ.isEarn = true) (o : OutTx) (x : IntraTx) :
+    InTransaction_is_earning i = some i.toEv.earn ∧ OutTransaction_is_earning o = some o.toEv.earn ∧
+    IntraTransaction_is_earning x = some x.toEv.earn :=
+  ⟨(Tables.in_event_view i hi).2.2, (Tables.out_event_view o).2.2, (Tables.intra_event_view x).2.2⟩
+
 end Rp2.C03
